@@ -4,7 +4,9 @@ import vf
 
 PROP = "C19"
 THEOREMS = ["new_canonical", "new_idempotent", "canonical_classes", "canonical_fixed_points", "ops_closed",
-            "sin_odd_any_rounding", "cos_even", "sin_odd"]
+            "sin_odd_any_rounding", "cos_even", "sin_odd", "codec_canonicalize_agrees", "sin_table_facts",
+            "q32_total", "q32_saturates", "q32_mul_nearest", "q32_div_nearest",
+            "prng_next_int_range", "prng_never_zero_state"]
 PRE = ("From Coq Require Import List NArith ZArith.\n"
        "From Echo Require Import Model.TrigTable Model.Scalar.\n"
        "Import ListNotations.\nOpen Scope N_scope.\n"
